@@ -759,6 +759,49 @@ impl<'a, 'b> GeneratorState<'a> {
         label: &str,
         immediate_special: bool,
     ) -> Result<Option<bool>, Error> {
+        let compound = matches!(
+            condition,
+            Expr::Not(_)
+                | Expr::BinOp {
+                    op: Operation::Land | Operation::Lor,
+                    ..
+                }
+        );
+        if compound || !has_post_incdec(condition) {
+            return self.generate_simple_condition(condition, pos, negate, label, immediate_special);
+        }
+        // The ++/-- left pending by the operands take effect once the condition is
+        // evaluated, whether the branch is taken or not
+        let before = self.deferred_plusplus.len();
+        self.local_label_counter_if += 1;
+        let taken_label = format!(".iftaken{}", self.local_label_counter_if);
+        let nottaken_label = format!(".ifnottaken{}", self.local_label_counter_if);
+        let verdict =
+            self.generate_simple_condition(condition, pos, negate, &taken_label, immediate_special)?;
+        let pending = self.deferred_plusplus.split_off(before);
+        for d in &pending {
+            self.generate_plusplus(&d.0, d.1, d.2)?;
+        }
+        if verdict.is_none() {
+            self.asm(JMP, &ExprType::Label(nottaken_label.clone()), 0, false)?;
+            self.label(&taken_label)?;
+            for d in &pending {
+                self.generate_plusplus(&d.0, d.1, d.2)?;
+            }
+            self.asm(JMP, &ExprType::Label(label.into()), 0, false)?;
+            self.label(&nottaken_label)?;
+        }
+        Ok(verdict)
+    }
+
+    fn generate_simple_condition(
+        &mut self,
+        condition: &Expr,
+        pos: usize,
+        negate: bool,
+        label: &str,
+        immediate_special: bool,
+    ) -> Result<Option<bool>, Error> {
         debug!("Condition: {:?}", condition);
         match condition {
             Expr::BinOp { lhs, op, rhs } => {
@@ -1164,6 +1207,24 @@ impl<'a, 'b> GeneratorState<'a> {
             }
         }
         Ok(())
+    }
+}
+
+// Does the evaluation of this expression leave a ++/-- pending ?
+fn has_post_incdec(expr: &Expr) -> bool {
+    match expr {
+        Expr::PlusPlus(_, true) | Expr::MinusMinus(_, true) => true,
+        Expr::PlusPlus(e, false)
+        | Expr::MinusMinus(e, false)
+        | Expr::Neg(e)
+        | Expr::Not(e)
+        | Expr::BNot(e)
+        | Expr::Deref(e)
+        | Expr::Addr(e) => has_post_incdec(e),
+        Expr::Identifier(_, sub) => has_post_incdec(sub),
+        Expr::FunctionCall(f, params) => has_post_incdec(f) || has_post_incdec(params),
+        Expr::BinOp { lhs, rhs, .. } => has_post_incdec(lhs) || has_post_incdec(rhs),
+        Expr::Nothing | Expr::Integer(_) | Expr::Sizeof(_) | Expr::Type(_) | Expr::TmpId(_) => false,
     }
 }
 
